@@ -291,6 +291,27 @@ def _div_pruned(ctx, P, iv):
 
 
 jx.ELEMENTWISE['div'] = _div_pruned
+_orig_sqrt = jx.ELEMENTWISE['sqrt']
+
+
+def _sqrt_hinted(ctx, P, iv):
+    """sqrt(a) -> r for a harness-supplied candidate r when the case hypotheses PROVE r >= 0 and r*r == a (perfect squares such as
+    the Wilkinson discriminant on families with rational spectrum); otherwise the usual fresh variable with its definition"""
+    hints = getattr(ctx, 'sqrt_hints', None)
+    dec = getattr(ctx, 'decide', None)
+    if not hints or dec is None:
+        return _orig_sqrt(ctx, P, iv)
+
+    def f(a):
+        if sym.isz(a):
+            for r in hints:
+                if dec(z3.And(r >= 0, r * r == a)) is True:
+                    return r
+        return jx.sym_sqrt(ctx, a)
+    return jx.ew(f, iv[0])
+
+
+jx.ELEMENTWISE['sqrt'] = _sqrt_hinted
 jx.ELEMENTWISE['abs'] = _pruned('abs', _p_abs)
 jx.ELEMENTWISE['sign'] = _pruned('sign', _p_sign)
 jx.ELEMENTWISE['max'] = _pruned('max', _p_max)
